@@ -30,6 +30,9 @@ META = {
         "takes the LAST occurrence of a duplicate (first-occurrence map only under a no-duplicates guard); _coords and "
         "_values are appended in lock-step with the complement of the membership mask; the returned permutation uses "
         "the same selection.  R4: get raises on any non-member before reading and returns values in request order. "
+        "R5 (content): every value that reaches storage - the update of already stored entries in both arms and the "
+        "appended columns - is a column selection of the duplicate-consolidated array (the bincount sum / last occurrence), "
+        "never of the raw batch (index spaces would agree, but repetitions inside the batch would be dropped). "
         "Decides these typing/ordering clauses; it does not execute any history of add/get calls."),
     "rule_text": "one obligation per typed gather/scatter/bincount/compare site, per consolidation arm, per append, per guard",
     "trusted_base": ["python ast", "sa.core (loader, astutil, cfg)",
@@ -40,7 +43,7 @@ META = {
                     "the last axis of 2-d arrays is the indexed one"],
     "technique": "index-space type inference with contradiction detection (abstract interpretation over AST)",
 }
-MIN_INSTANCES = {"R1": 12, "R2": 2, "R3": 9, "R4": 3}
+MIN_INSTANCES = {"R1": 12, "R2": 2, "R3": 9, "R4": 3, "R5": 3}
 
 PRESERVING_METHODS = {"ravel", "flatten", "copy", "astype", "squeeze", "reshape"}
 PRESERVING_FUNCS = {"atleast_2d", "atleast_1d", "asarray", "ascontiguousarray", "ravel", "squeeze"}
@@ -672,9 +675,13 @@ def _analyse_add(ctx: Ctx, mod, fn: ast.FunctionDef) -> None:
     vnew = appends["self._values"][0].value.args[0].elts[1]
     if isinstance(vnew, ast.Name) and len(it.assign_types.get(vnew.id, [])) == 1:
         vnew = it.assign_types[vnew.id][0][0].value  # a temporary holding the selected columns
-    cons = vnew.value.id if isinstance(vnew, ast.Subscript) and isinstance(vnew.value, ast.Name) else None
-    if cons is None:
+    append_base = vnew.value.id if isinstance(vnew, ast.Subscript) and isinstance(vnew.value, ast.Name) else None
+    if append_base is None:
         raise Undecided(f"{q}: appended values are not `<name>[:, mask]`")
+    # the consolidated array is, by definition, the one built by summing duplicates over the inverse map
+    summed = sorted({name for name, lst in it.assign_types.items() for s_, _t in lst
+                     if any(isinstance(c, ast.Call) and call_name(c) == "bincount" for c in ast.walk(s_.value))})
+    cons = summed[0] if len(summed) == 1 else append_base
     defs = it.assign_types.get(cons, [])
     if not defs:
         raise AnchorError(f"{q}: no definition of {cons}")
@@ -699,6 +706,8 @@ def _analyse_add(ctx: Ctx, mod, fn: ast.FunctionDef) -> None:
 
     # --- column stores into the consolidated array (duplicate arm) ---------------------------
     cons_names = {cons} | {s_.value.id for s_, _ in defs if isinstance(s_.value, ast.Name)}
+    cons_names |= {n for n, lst in it.assign_types.items() if len(lst) == 1 and isinstance(lst[0][0].value, ast.Name)
+                   and lst[0][0].value.id in cons_names}
     n_dup = 0
     for s, tg, tsel, tval, aug in it.stores:
         base = u(tg.value)
@@ -745,6 +754,39 @@ def _analyse_add(ctx: Ctx, mod, fn: ast.FunctionDef) -> None:
     if n_dup == 0 and not any(_additive_polarity(pm, s, fn, "additive") is False and isinstance(s.value, ast.Subscript)
                               for s, t in defs):
         _undecided(ctx, f"{q}: overwrite consolidation not recognised")
+
+    # --- content clause: whatever reaches storage is the duplicate-consolidated array --------------------
+    def base_of(e: ast.expr):
+        for _ in range(4):
+            if isinstance(e, ast.Name) and e.id not in cons_names and len(it.assign_types.get(e.id, [])) == 1:
+                e = it.assign_types[e.id][0][0].value
+            else:
+                break
+        if isinstance(e, ast.Subscript) and isinstance(e.value, ast.Name):
+            return e.value.id
+        if isinstance(e, ast.Name):
+            return e.id
+        return None
+    writes = [("appended to storage", appends["self._values"][0], appends["self._values"][0].value.args[0].elts[1])]
+    for s, tg, tsel, tval, aug in it.stores:
+        if u(tg.value) == "self._values":
+            writes.append(("written to already stored entries", s, s.value))
+    raw = {"values"} | {n for n, lst in it.assign_types.items() if n not in cons_names and any(
+        isinstance(s_.value, ast.Call) and call_name(s_.value) in PRESERVING_FUNCS and s_.value.args and u(s_.value.args[0]) == "values"
+        for s_, _t in lst)}
+    for what, stmt, vexpr in writes:
+        b = base_of(vexpr)
+        if b is None or (b not in cons_names and b not in raw):
+            _undecided(ctx, f"{q}: cannot tell which array is {what} in `{u(stmt)[:80]}`")
+            continue
+        pol = _additive_polarity(pm, stmt, fn, "additive")
+        ctx.check("R5", b in cons_names, mod, q, stmt,
+                  f"values {what} must be columns of the duplicate-consolidated array `{cons}` (sum of repeated coordinates in "
+                  f"additive mode, last occurrence in overwrite mode); this takes them from the raw batch `{b}`: repetitions of a "
+                  f"coordinate inside the batch are lost (only one occurrence reaches storage)",
+                  construct=f"{what}: columns of {'consolidated' if b in cons_names else 'raw batch'} array"
+                            + ("" if pol is None else f" ({'additive' if pol else 'overwrite'} arm)"),
+                  facts={"source": b, "consolidated": sorted(cons_names)})
 
 
 def _undecided(ctx: Ctx, msg: str) -> None:
@@ -1007,6 +1049,12 @@ MUTANTS = [
     _m("additive-arm-overwrites-existing", "            self._values[:, ind] += unique_values[:, is_mem]", "            self._values[:, ind] = unique_values[:, is_mem]", "R3"),
     _m("overwrite-arm-adds-to-existing", "            self._values[:, ind] = unique_values[:, is_mem]", "            self._values[:, ind] += unique_values[:, is_mem]", "R3"),
     _m("duplicate-loop-over-batch", "for i in range(unique_coords.shape[1]):", "for i in range(coord_array.shape[1]):", "R1"),
+    _m("seed-additive-update-first-occurrence-only", "            self._values[:, ind] += unique_values[:, is_mem]",
+       "            self._values[:, ind] += values[:, unique_2_all[is_mem]]", "R5"),
+    _m("overwrite-update-first-occurrence", "            self._values[:, ind] = unique_values[:, is_mem]",
+       "            self._values[:, ind] = values[:, unique_2_all[is_mem]]", "R5"),
+    _m("append-first-occurrence-raw", "            (self._values, unique_values[:, np.logical_not(is_mem)])",
+       "            (self._values, values[:, unique_2_all[np.logical_not(is_mem)]])", "R5"),
     _m("get-sorted-positions", "_, _, is_mem, ind_list = intersect_sets(coord_array, self._coords)",
        "_, ind_list, is_mem, _ = intersect_sets(coord_array, self._coords)", "R4"),
     _m("get-guard-all-nonmembers", "if np.any(np.logical_not(is_mem)):", "if np.all(np.logical_not(is_mem)):", "R4"),
